@@ -1,3 +1,5 @@
+import sys
+
 from bardolph.lib import i_lib
 from bardolph.lib.injection import bind_instance
 
@@ -9,8 +11,10 @@ class StdOutOutput(i_lib.Output):
         if self._line_pending:
             print(' ', end='')
 
-        self._line_pending = True
         print(output, end='')
+        # Text that ends in a line break (printf "...\n") leaves the cursor
+        # at the start of a line: what comes next needs no separator.
+        self._line_pending = not str(output).endswith('\n')
 
     def newline(self):
         print()
